@@ -260,7 +260,20 @@ pub fn build_src(s: &Src, env: &Env) -> Bx {
       let st = CountingStream { next: 0, n: *n as i64, cn: env.counters.clone() };
       bx(observable::from_stream(st, VSched).on_error_map(inf as InfFn))
     }
+    Src::CountingTryStream(n) => {
+      let st = CountingTryStream(CountingStream { next: 0, n: *n as i64, cn: env.counters.clone() });
+      bx(observable::from_stream_result(st, VSched))
+    }
     Src::SilentStream => bx(observable::from_stream(SilentStream { cn: env.counters.clone() }, VSched).on_error_map(inf as InfFn)),
+  }
+}
+
+/// the fallible twin: n ready `Ok` items, counts its polls
+pub struct CountingTryStream(CountingStream);
+impl futures::Stream for CountingTryStream {
+  type Item = Result<V, E>;
+  fn poll_next(mut self: std::pin::Pin<&mut Self>, cx: &mut std::task::Context<'_>) -> std::task::Poll<Option<Result<V, E>>> {
+    std::pin::Pin::new(&mut self.0).poll_next(cx).map(|o| o.map(Ok))
   }
 }
 
